@@ -348,7 +348,11 @@ func (sc *serverConn) readLoop() (err error) {
 	var expectContinuation uint32
 
 	for err == nil {
-		fr, err = ReadFrameFromWithSize(sc.br, sc.clientS.frameSize)
+		// What bounds a frame we receive is the SETTINGS_MAX_FRAME_SIZE this end
+		// advertised, not the peer's: that one says what the peer is willing
+		// to receive, and before its first SETTINGS frame it was zero, which
+		// ReadFrameFromWithSize takes for no limit at all.
+		fr, err = ReadFrameFromWithSize(sc.br, sc.st.frameSize)
 		if err != nil {
 			if errors.Is(err, ErrUnknownFrameType) {
 				// Unknown frame types are discarded, not rejected (RFC 7540
@@ -1430,6 +1434,14 @@ func (sc *serverConn) handleHeaderFrame(strm *Stream, fr *FrameHeader) error {
 			if errors.Is(err, ErrUnexpectedSize) && len(pb) > 0 && !fr.Flags().Has(FlagEndHeaders) {
 				err = nil
 
+				if sc.maxHeaderList > 0 && len(pb) > sc.maxHeaderList {
+					// A single field that has already outgrown the whole
+					// header list can only end in the list being refused.
+					// Buffering it until it is complete lets a peer that
+					// never completes it grow this for as long as it likes.
+					return NewGoAwayError(EnhanceYourCalm, "header list exceeds the maximum size")
+				}
+
 				if streamErr != nil {
 					// the stream is about to go; the CONTINUATION frames that
 					// finish the field are decoded by discardHeaders
@@ -1945,7 +1957,12 @@ func (sc *serverConn) writeLoop() {
 }
 
 func (sc *serverConn) handleSettings(st *Settings) {
-	st.CopyTo(&sc.clientS)
+	// Only the parameters the frame carries change; the others keep the value
+	// they had (RFC 7540 6.5.3). Copying the decoded frame over, defaults for
+	// absent parameters and all, quietly reset the ones it did not mention: a
+	// peer that had set SETTINGS_HEADER_TABLE_SIZE to 0 saw the encoder go
+	// back to 4096 on its next, unrelated, SETTINGS frame.
+	_ = sc.clientS.Read(st.rawSettings)
 	if verifOn {
 		vAccess(sc, "enc", "rl")
 	}
